@@ -427,6 +427,10 @@ func (t Table) Lookup(req *http.Request, trace string, pick picker, match matche
 		if target = t.lookup(h, req.URL.Path, trace, pick, match); target != nil {
 			if target.RedirectCode != 0 {
 				req.URL.Host = req.Host
+				// the redirect url belongs to this request: build it on a
+				// copy since the target is shared by all concurrent requests
+				tc := *target
+				target = &tc
 				target.BuildRedirectURL(req.URL) // build redirect url and cache in target
 				if target.RedirectURL.Scheme == req.Header.Get("X-Forwarded-Proto") &&
 					target.RedirectURL.Host == req.Host &&
